@@ -218,6 +218,8 @@ def project(pid, op, group, canon, ctx):
             return res
         if cmd == "snapshot":
             return " ".join(sorted(re.findall(r"(\d+:\d+)\[", res)))
+        if cmd == "inv":
+            return "~" + res  # the index / pool / storage consistency check of the hook
         return None
     if pid == "C03":
         if cmd == "qall":
@@ -236,7 +238,7 @@ def project(pid, op, group, canon, ctx):
             return status(res)
         if cmd == "snapshot":
             return only_targets(c(res))
-        if cmd == "qall" and op.split()[1] == "R":
+        if cmd == "qall" and (op.split()[1] == "R" or (op.split()[1] == "C" and op.split()[2] in ctx.get("creg_rel", ()))):
             return qall_set(c(res))
         return None
     if pid == "C06":
@@ -376,6 +378,10 @@ def compare(pid, ops, impl_groups, model_groups):
             ctx["full_listener"] = op.split()[1:] == ["63", "-"]
         elif cmd in ("nolst", "disp"):
             ctx["full_listener"] = False
+        if cmd == "creg" and len(op.split()) > 1 and op.split()[1] == "R":
+            m = re.match(r"= ok c(\d+)", gm[0])
+            if m:
+                ctx.setdefault("creg_rel", set()).add(m.group(1))  # registered relation filters
         if (cmd in BATCH and cmd.endswith("q")) or (cmd == "bld" and " batchq " in op):
             m = re.match(r"= ok q(\d+)", gm[0])
             if m:
